@@ -54,6 +54,8 @@ def run(res, replay=None):
             codes2 = {code for code, a in c["probs_n2"]}
             if codes2 and codes2 <= {0x50003, 0x50004, 0x50014, 0x50006} and c["cons2"] in ([], None, "skipped"):
                 xl = "leak"          # the second run finds nothing but blocks that are marked in use and belong to nobody
+            if c.get("shadow2") and c["rc_n2"] == 0 and not c["probs_n2"]:
+                xl = "shadow"
             bad.append((rec, why, c["out_n2"], xl))
         else:
             stats["second_run_clean"] += 1
@@ -68,10 +70,12 @@ def run(res, replay=None):
     def sig(rec, why, out, xl):
         if xl == "leak":
             return "c01:second-run-finds-only-leaked-blocks"
+        if xl == "shadow":
+            return "c01:uninit-group-metadata-bit-clear-on-disk"
         if xl and "invalid journal" in out:
             return "c01:journal-cross-linked-superblock-lost"
         return "c01:" + hashlib.sha256(json.dumps(rec["operators"]).encode()).hexdigest()[:12]
-    bad.sort(key=lambda b: 1 if sig(*b) in ("c01:journal-cross-linked-superblock-lost", "c01:second-run-finds-only-leaked-blocks") else 0)
+    bad.sort(key=lambda b: 1 if sig(*b) in ("c01:journal-cross-linked-superblock-lost", "c01:second-run-finds-only-leaked-blocks", "c01:uninit-group-metadata-bit-clear-on-disk") else 0)
     for rec, why, out, xl in bad[:3]:
         res.violation("oracle", {"recipe": rec, "note": why, "second_run_output_tail": out[-400:], "journal_blocks_cross_linked_in_input": xl},
                       signature=sig(rec, why, out, xl))
